@@ -45,6 +45,15 @@ pub fn run(ctx: &Ctx) -> i32 {
     let ops_full = explore::ops_full();
     let depth = if th { 4 } else { 3 };
     let (st, acc1) = explore::explore(&roots, &ops_full, depth, &on_state, &|_, _, _, _, _| {}, Some("C04|receiver-mutated"));
+    // the harness owns every choice: exploring again must give exactly the same counts (a mismatch is a machinery error, never a verdict)
+    {
+        let d2 = if th { depth - 1 } else { depth };
+        let (a, _) = explore::explore(&roots, &ops_full, d2, &|_, _, _| {}, &|_, _, _, _, _| {}, None);
+        let (b, _) = if d2 == depth { (explore::Stats { states: st.states, transitions: st.transitions, merged: st.merged, refused: st.refused, panics: st.panics, max_depth: st.max_depth, sequences: st.sequences, per_depth: st.per_depth.clone() }, Acc::new()) } else { explore::explore(&roots, &ops_full, d2, &|_, _, _| {}, &|_, _, _, _, _| {}, None) };
+        if (a.states, a.transitions, a.merged, a.refused) != (b.states, b.transitions, b.merged, b.refused) || a.per_depth[..] != st.per_depth[..a.per_depth.len()] {
+            eprintln!("MACHINERY: two explorations of the same space disagree: {:?} vs {:?}", (a.states, a.transitions, a.merged), (b.states, b.transitions, b.merged)); std::process::exit(2);
+        }
+    }
     let mut stats = json!({"full_alphabet": {"ops": ops_full.len(), "depth": depth, "states": st.states, "transitions": st.transitions, "states_per_depth": st.per_depth, "merged": st.merged, "refused": st.refused, "panics_counted_under_C16": st.panics, "complete_sequences": st.sequences}});
     let (mut states, mut transitions, mut sequences) = (st.states, st.transitions, st.sequences);
     let mut acc = acc1;
@@ -60,7 +69,7 @@ pub fn run(ctx: &Ctx) -> i32 {
     let cov = json!({"states": states, "transitions": transitions, "traces_validated_against_impl": sequences,
         "evaluations": states, "distinct_nontrivial": states,
         "rule": "state = distinct observed envelope (cases, digests, leaf bytes) reached by an operation sequence; every state is checked by independent digest recomputation, the independent CDDL/dCBOR recogniser on its bytes and a decode round trip; every transition is a real API call",
-        "samples": samples, "exhaustive": true, "search": stats,
+        "samples": samples, "exhaustive": true, "search": stats, "determinism_check": "the full-alphabet exploration was repeated (quick: same depth; thorough: depth-1, twice) and states / transitions / merges per depth were identical",
         "bounds": {"roots": roots.len(), "root_tree_weight": if th { 4 } else { 3 }}});
     finish(ctx, acc, "model_checking", cov, vec!["operations with random output use fixed material (fixed salt, fixed sealed message, Ed25519) so that equal state keys have equal futures".into(),
         "refused operations (Err) are self-loops".into()])
